@@ -317,11 +317,14 @@ class EmpiricalSubstitutionModel(SubstitutionModel):
 
     def p_t(self, branch_lengths: torch.Tensor) -> torch.Tensor:
         offset = branch_lengths.dim() - self.e.dim() + 1
-        return (
+        # P(t) = I + U (exp(et) - 1) U^-1 : exactly the identity at t=0
+        return torch.eye(
+            self.e.shape[-1], dtype=self.e.dtype, device=self.e.device
+        ) + (
             (self.sqrt_pi_inv @ self.v).reshape(
                 self.e.shape[:-1] + (1,) * offset + self.sqrt_pi_inv.shape[-2:]
             )
-            @ torch.exp(
+            @ torch.expm1(
                 self.e.reshape(self.e.shape[:-1] + (1,) * offset + self.e.shape[-1:])
                 * branch_lengths.unsqueeze(-1)
             ).diag_embed()
